@@ -344,6 +344,8 @@ def gen_item(t, r):
         for i, row in zip(t['ids'], t['rows'])])
     if 'error' in r:
         want = ['ERROR']
+    elif not (len(r['ids']) == len(r['dof']) == len(r['values'])):
+        want = ['LENGTHS DIFFER']
     else:
         want = [f'{i},{d[0]},{d[1] if len(d) > 1 else "?"},{cm.f2dec(fx(v), 5)}'
                 for i, d, v in zip(r['ids'], r['dof'], r['values'])]
